@@ -6,6 +6,7 @@ import (
 	"os"
 	"path/filepath"
 	"strings"
+	"time"
 
 	"pgregory.net/rapid"
 )
@@ -385,6 +386,16 @@ func (m *MonC20) OnStepEnd(w *World, step int) {
 					Message: fmt.Sprintf("after %s at step %d the WebSocket of c%d is still open", op.K, step, c.Idx)})
 			}
 		}
+		// the listeners are closed: nothing accepts connections on the ports
+		if w.Port != 0 {
+			m.class("ports_probed_after_stop")
+			if PortOpen(w.Port) {
+				m.violate(w, "port_open_after_stop", "after %s at step %d the API port %d still accepts connections", op.K, step, w.Port)
+			}
+			if w.MetricsPort != 0 && PortOpen(w.MetricsPort) {
+				m.violate(w, "port_open_after_stop", "after %s at step %d the metrics port %d still accepts connections", op.K, step, w.MetricsPort)
+			}
+		}
 		want := "<nil>"
 		if op.K == "lose" {
 			want = "lost NATS connection"
@@ -396,6 +407,20 @@ func (m *MonC20) OnStepEnd(w *World, step int) {
 	if op.K == "start" && m.stopped {
 		m.stopped, m.startStep = false, step
 		m.cycles[len(m.cycles)-1][1] = step
+		if w.Port != 0 && w.Failed == "" {
+			// the restarted gateway listens again (Serve starts on a goroutine)
+			up := false
+			for i := 0; i < 100 && !up; i++ {
+				up = PortOpen(w.Port) && (w.MetricsPort == 0 || PortOpen(w.MetricsPort))
+				if !up {
+					time.Sleep(5 * time.Millisecond)
+				}
+			}
+			m.class("ports_probed_after_start")
+			if !up {
+				m.violate(w, "port_closed_after_start", "after Start at step %d the API port %d / metrics port %d do not accept connections", step, w.Port, w.MetricsPort)
+			}
+		}
 	}
 	if m.stopped && step > m.faultStep {
 		switch op.K {
@@ -513,6 +538,12 @@ func init() {
 			cfg := WorldConfig{Resources: defaultResources(), Protocol: true}
 			if HooksEnabled && rapid.IntRange(0, 3).Draw(t, "delay") == 0 {
 				cfg.UnsubDelayMs = 20 // pending evictions at the fault
+			}
+			// real listeners on loopback in a fifth of the cases, half of those with
+			// the metrics endpoint
+			if rapid.IntRange(0, 4).Draw(t, "listen") == 0 {
+				cfg.Listen = true
+				cfg.ListenMetrics = rapid.Bool().Draw(t, "listenmetrics")
 			}
 			return cfg
 		},
